@@ -68,6 +68,7 @@ func VerifC01_GroupModBuckets() {
 
 func VerifC01_PacketOut() {
 	p := NewPacketOut()
+	p.BufferId = vr.U32("buffer") // data may accompany a buffered packet too
 	k := vr.IntRange("npacts", 0, 2)
 	for i := 0; i < k; i++ {
 		p.AddAction(buildActionShort(1))
@@ -119,6 +120,7 @@ func VerifC01_LateGrowth() {
 	case 0:
 		vr.Tag("container", "PacketOut")
 		p := NewPacketOut()
+		p.BufferId = vr.U32("buffer") // data may accompany a buffered packet too
 		p.AddAction(a)
 		grow()
 		c01framed(p, Type_PacketOut)
